@@ -39,12 +39,12 @@ set_option maxRecDepth 8000 in
 set_option maxHeartbeats 8000000 in
 theorem sse_indexbytebody_inv (mem : Nat → UInt8) (base len : Nat) (c : UInt8) (h16 : 16 ≤ len) (hb : base + len + 32 < 2 ^ 63) :
     ∀ (n di : Nat) (s : St) (f : Nat),
-      s.r .SI = base → s.r .DI = base + di → s.r .AX = base + len - 16 → (∀ j, s.x .X0 j = c) → (∀ j, s.x .X2 j = 0x20) →
+      s.r .SI = base → s.r .DI = base + di → s.r .AX = base + len - 16 → (∀ j, s.x .X0 j = c) → (∀ _j : Nat, True) →
       s.mem = mem → s.out = none →
       di < len → len ≤ n * 16 + di → 8 * n + 12 ≤ f →
-      (run Gen.Asm.sse_indexbytebody f (Lentry Gen.Asm.sse_indexbytebody) s).out =
+      (run Gen.Asm.body_indexbytebody f (Lentry Gen.Asm.body_indexbytebody) s).out =
           some (idxLoop P16 (fun b => b == c) mem base len n di).1 ∧
-      (run Gen.Asm.sse_indexbytebody f (Lentry Gen.Asm.sse_indexbytebody) s).loads =
+      (run Gen.Asm.body_indexbytebody f (Lentry Gen.Asm.body_indexbytebody) s).loads =
           s.loads ++ (idxLoop P16 (fun b => b == c) mem base len n di).2 := by
   intro n
   induction n with
@@ -66,13 +66,13 @@ theorem sse_indexbytebody_inv (mem : Nat → UInt8) (base len : Nat) (c : UInt8)
         -- one full iteration, then the invariant again at di + 16
         have hadd : (base + di + 16 % W64) % W64 = base + (di + 16) := by rw [hW]; omega
         obtain ⟨g, rfl⟩ : ∃ g, f = g + 8 := ⟨f - 8, by omega⟩
-        have hstep : ∃ s' : St, run Gen.Asm.sse_indexbytebody (g + 8) (Lentry Gen.Asm.sse_indexbytebody) s =
-              run Gen.Asm.sse_indexbytebody g (Lentry Gen.Asm.sse_indexbytebody) s' ∧
+        have hstep : ∃ s' : St, run Gen.Asm.body_indexbytebody (g + 8) (Lentry Gen.Asm.body_indexbytebody) s =
+              run Gen.Asm.body_indexbytebody g (Lentry Gen.Asm.body_indexbytebody) s' ∧
             s'.r .SI = base ∧ s'.r .DI = base + (di + 16) ∧ s'.r .AX = base + len - 16 ∧ (∀ j, s'.x .X0 j = c) ∧
-            (∀ j, s'.x .X2 j = 0x20) ∧ s'.mem = mem ∧ s'.out = none ∧ s'.loads = s.loads ++ [(base + di, 16)] := by
+            (∀ _j : Nat, True) ∧ s'.mem = mem ∧ s'.out = none ∧ s'.loads = s.loads ++ [(base + di, 16)] := by
           refine ⟨?_, ?_, ?_, ?_, ?_, ?_, ?_, ?_, ?_, ?_⟩
           case refine_2 =>
-            asm_step [Gen.Asm.sse_indexbytebody, hSI, hDI, hAX, hX0, hX2, hmem, hcf, a0, hfb, hadd]
+            asm_step [Gen.Asm.body_indexbytebody, hSI, hDI, hAX, hX0, hX2, hmem, hcf, a0, hfb, hadd]
             rfl
           all_goals simp [hSI, hAX, hX0, hX2, hout]
         obtain ⟨s', he, i1, i2, i3, i4, i5, i6, i7, i8⟩ := hstep
@@ -87,7 +87,7 @@ theorem sse_indexbytebody_inv (mem : Nat → UInt8) (base len : Nat) (c : UInt8)
         have haddk : (di + k) % W64 = di + k := by rw [hW]; omega
         have h63 : di + k < 2 ^ 63 := by omega
         obtain ⟨g, rfl⟩ : ∃ g, f = g + 12 := ⟨f - 12, by omega⟩
-        constructor <;> asm_step [Gen.Asm.sse_indexbytebody, hSI, hDI, hAX, hX0, hX2, hmem, hout, hcf, a0, hfb, hsub, haddk, h63]
+        constructor <;> asm_step [Gen.Asm.body_indexbytebody, hSI, hDI, hAX, hX0, hX2, hmem, hout, hcf, a0, hfb, hsub, haddk, h63]
     · rw [if_neg hlt]
       have hcf : decide (base + di < base + len - 16) = false := decide_eq_false (by omega)
       have a0 : (base + len - 16 + 0 + dispN 0) % W64 = base + len - 16 := by rw [dispN0, hW]; omega
@@ -100,7 +100,7 @@ theorem sse_indexbytebody_inv (mem : Nat → UInt8) (base len : Nat) (c : UInt8)
         rw [hblk] at hfb
         simp only []
         obtain ⟨g, rfl⟩ : ∃ g, f = g + 12 := ⟨f - 12, by omega⟩
-        constructor <;> asm_step [Gen.Asm.sse_indexbytebody, hSI, hDI, hAX, hX0, hX2, hmem, hout, hcf, a0, hfb]
+        constructor <;> asm_step [Gen.Asm.body_indexbytebody, hSI, hDI, hAX, hX0, hX2, hmem, hout, hcf, a0, hfb]
       | some k =>
         rw [hblk] at hfb
         obtain ⟨_, hk16, _, _⟩ := blk_some hblk
@@ -109,7 +109,7 @@ theorem sse_indexbytebody_inv (mem : Nat → UInt8) (base len : Nat) (c : UInt8)
         have haddk : (len - 16 + k) % W64 = len - 16 + k := by rw [hW]; omega
         have h63 : len - 16 + k < 2 ^ 63 := by omega
         obtain ⟨g, rfl⟩ : ∃ g, f = g + 12 := ⟨f - 12, by omega⟩
-        constructor <;> asm_step [Gen.Asm.sse_indexbytebody, hSI, hDI, hAX, hX0, hX2, hmem, hout, hcf, a0, hfb, hsub, haddk, h63]
+        constructor <;> asm_step [Gen.Asm.body_indexbytebody, hSI, hDI, hAX, hX0, hX2, hmem, hout, hcf, a0, hfb, hsub, haddk, h63]
 
 set_option maxRecDepth 8000 in
 set_option maxHeartbeats 8000000 in
@@ -118,24 +118,22 @@ set_option maxHeartbeats 8000000 in
     argument -/
 theorem sse_indexbytebody_correct (mem : Nat → UInt8) (base len : Nat) (c : UInt8) (s : St) (f : Nat)
     (h16 : 16 ≤ len) (hb : base + len + 32 < 2 ^ 63)
-    (hSI : s.r .SI = base) (hDI : s.r .DI = base) (hBX : s.r .BX = len) (hX0 : ∀ j, s.x .X0 j = c) (hX2 : ∀ j, s.x .X2 j = 0x20)
+    (hSI : s.r .SI = base) (hDI : s.r .DI = base) (hBX : s.r .BX = len) (hX0 : ∀ j, s.x .X0 j = c) (hX2 : ∀ _j : Nat, True)
     (hmem : s.mem = mem) (hout : s.out = none) (hl : s.loads = []) (hf : 8 * (len + 1) + 12 + 2 ≤ f) :
-    (run Gen.Asm.sse_indexbytebody f (block Gen.Asm.sse_indexbytebody "sse") s).out = some (specIndex (fun b => b == c) mem base len) ∧
-    ∀ ld ∈ (run Gen.Asm.sse_indexbytebody f (block Gen.Asm.sse_indexbytebody "sse") s).loads, base ≤ ld.1 ∧ ld.1 + ld.2 ≤ base + len := by
+    (run Gen.Asm.body_indexbytebody f (block Gen.Asm.body_indexbytebody "sse") s).out = some (specIndex (fun b => b == c) mem base len) ∧
+    ∀ ld ∈ (run Gen.Asm.body_indexbytebody f (block Gen.Asm.body_indexbytebody "sse") s).loads, base ≤ ld.1 ∧ ld.1 + ld.2 ≤ base + len := by
   have hW : W64 = 2 ^ 64 := rfl
   obtain ⟨g, rfl⟩ : ∃ g, f = g + 2 := ⟨f - 2, by omega⟩
   have alea : (base + len + dispN (-16)) % W64 = base + len - 16 := by rw [dispNm16, hW]; omega
   have hinv := sse_indexbytebody_inv mem base len c h16 hb (len + 1) 0
-    { r := fun q => if q = Reg.AX then base + len - 16 else s.r q, x := s.x, zf := s.zf, cf := s.cf, mem := s.mem,
-      loads := s.loads, out := s.out } g
+    { s with r := fun q => if q = Reg.AX then base + len - 16 else s.r q } g
     (by simp [hSI]) (by simp [hDI]) (by simp) hX0 hX2 hmem hout (by omega) (by omega) (by omega)
   have hcor := idxLoop_correct P16 ⟨rfl, rfl, by decide⟩ (fun b => b == c) mem base len h16 (len + 1) 0 (by omega)
     (by show len ≤ (len + 1) * 16 + 0; omega) (fun i hi => by omega)
-  have e : run Gen.Asm.sse_indexbytebody (g + 2) (block Gen.Asm.sse_indexbytebody "sse") s =
-      run Gen.Asm.sse_indexbytebody g (Lentry Gen.Asm.sse_indexbytebody)
-        { r := fun q => if q = Reg.AX then base + len - 16 else s.r q, x := s.x, zf := s.zf, cf := s.cf, mem := s.mem,
-          loads := s.loads, out := s.out } := by
-    asm_step [Gen.Asm.sse_indexbytebody, hSI, hBX, alea]
+  have e : run Gen.Asm.body_indexbytebody (g + 2) (block Gen.Asm.body_indexbytebody "sse") s =
+      run Gen.Asm.body_indexbytebody g (Lentry Gen.Asm.body_indexbytebody)
+        { s with r := fun q => if q = Reg.AX then base + len - 16 else s.r q } := by
+    asm_step [Gen.Asm.body_indexbytebody, hSI, hBX, alea]
   rw [e, hinv.1, hinv.2, hcor.1]
   refine ⟨rfl, ?_⟩
   intro ld hld
@@ -149,9 +147,9 @@ theorem sse_indexbytebodyCase_inv (mem : Nat → UInt8) (base len : Nat) (c : UI
       s.r .SI = base → s.r .DI = base + di → s.r .AX = base + len - 16 → (∀ j, s.x .X0 j = c) → (∀ j, s.x .X2 j = 0x20) →
       s.mem = mem → s.out = none →
       di < len → len ≤ n * 16 + di → 9 * n + 14 ≤ f →
-      (run Gen.Asm.sse_indexbytebodyCase f (Lentry Gen.Asm.sse_indexbytebodyCase) s).out =
+      (run Gen.Asm.body_indexbytebodyCase f (Lentry Gen.Asm.body_indexbytebodyCase) s).out =
           some (idxLoop P16 (fun b => (b ||| 0x20) == c) mem base len n di).1 ∧
-      (run Gen.Asm.sse_indexbytebodyCase f (Lentry Gen.Asm.sse_indexbytebodyCase) s).loads =
+      (run Gen.Asm.body_indexbytebodyCase f (Lentry Gen.Asm.body_indexbytebodyCase) s).loads =
           s.loads ++ (idxLoop P16 (fun b => (b ||| 0x20) == c) mem base len n di).2 := by
   intro n
   induction n with
@@ -173,13 +171,13 @@ theorem sse_indexbytebodyCase_inv (mem : Nat → UInt8) (base len : Nat) (c : UI
         -- one full iteration, then the invariant again at di + 16
         have hadd : (base + di + 16 % W64) % W64 = base + (di + 16) := by rw [hW]; omega
         obtain ⟨g, rfl⟩ : ∃ g, f = g + 9 := ⟨f - 9, by omega⟩
-        have hstep : ∃ s' : St, run Gen.Asm.sse_indexbytebodyCase (g + 9) (Lentry Gen.Asm.sse_indexbytebodyCase) s =
-              run Gen.Asm.sse_indexbytebodyCase g (Lentry Gen.Asm.sse_indexbytebodyCase) s' ∧
+        have hstep : ∃ s' : St, run Gen.Asm.body_indexbytebodyCase (g + 9) (Lentry Gen.Asm.body_indexbytebodyCase) s =
+              run Gen.Asm.body_indexbytebodyCase g (Lentry Gen.Asm.body_indexbytebodyCase) s' ∧
             s'.r .SI = base ∧ s'.r .DI = base + (di + 16) ∧ s'.r .AX = base + len - 16 ∧ (∀ j, s'.x .X0 j = c) ∧
             (∀ j, s'.x .X2 j = 0x20) ∧ s'.mem = mem ∧ s'.out = none ∧ s'.loads = s.loads ++ [(base + di, 16)] := by
           refine ⟨?_, ?_, ?_, ?_, ?_, ?_, ?_, ?_, ?_, ?_⟩
           case refine_2 =>
-            asm_step [Gen.Asm.sse_indexbytebodyCase, hSI, hDI, hAX, hX0, hX2, hmem, hcf, a0, hfb, hadd]
+            asm_step [Gen.Asm.body_indexbytebodyCase, hSI, hDI, hAX, hX0, hX2, hmem, hcf, a0, hfb, hadd]
             rfl
           all_goals simp [hSI, hAX, hX0, hX2, hout]
         obtain ⟨s', he, i1, i2, i3, i4, i5, i6, i7, i8⟩ := hstep
@@ -194,7 +192,7 @@ theorem sse_indexbytebodyCase_inv (mem : Nat → UInt8) (base len : Nat) (c : UI
         have haddk : (di + k) % W64 = di + k := by rw [hW]; omega
         have h63 : di + k < 2 ^ 63 := by omega
         obtain ⟨g, rfl⟩ : ∃ g, f = g + 14 := ⟨f - 14, by omega⟩
-        constructor <;> asm_step [Gen.Asm.sse_indexbytebodyCase, hSI, hDI, hAX, hX0, hX2, hmem, hout, hcf, a0, hfb, hsub, haddk, h63]
+        constructor <;> asm_step [Gen.Asm.body_indexbytebodyCase, hSI, hDI, hAX, hX0, hX2, hmem, hout, hcf, a0, hfb, hsub, haddk, h63]
     · rw [if_neg hlt]
       have hcf : decide (base + di < base + len - 16) = false := decide_eq_false (by omega)
       have a0 : (base + len - 16 + 0 + dispN 0) % W64 = base + len - 16 := by rw [dispN0, hW]; omega
@@ -207,7 +205,7 @@ theorem sse_indexbytebodyCase_inv (mem : Nat → UInt8) (base len : Nat) (c : UI
         rw [hblk] at hfb
         simp only []
         obtain ⟨g, rfl⟩ : ∃ g, f = g + 14 := ⟨f - 14, by omega⟩
-        constructor <;> asm_step [Gen.Asm.sse_indexbytebodyCase, hSI, hDI, hAX, hX0, hX2, hmem, hout, hcf, a0, hfb]
+        constructor <;> asm_step [Gen.Asm.body_indexbytebodyCase, hSI, hDI, hAX, hX0, hX2, hmem, hout, hcf, a0, hfb]
       | some k =>
         rw [hblk] at hfb
         obtain ⟨_, hk16, _, _⟩ := blk_some hblk
@@ -216,7 +214,7 @@ theorem sse_indexbytebodyCase_inv (mem : Nat → UInt8) (base len : Nat) (c : UI
         have haddk : (len - 16 + k) % W64 = len - 16 + k := by rw [hW]; omega
         have h63 : len - 16 + k < 2 ^ 63 := by omega
         obtain ⟨g, rfl⟩ : ∃ g, f = g + 14 := ⟨f - 14, by omega⟩
-        constructor <;> asm_step [Gen.Asm.sse_indexbytebodyCase, hSI, hDI, hAX, hX0, hX2, hmem, hout, hcf, a0, hfb, hsub, haddk, h63]
+        constructor <;> asm_step [Gen.Asm.body_indexbytebodyCase, hSI, hDI, hAX, hX0, hX2, hmem, hout, hcf, a0, hfb, hsub, haddk, h63]
 
 set_option maxRecDepth 8000 in
 set_option maxHeartbeats 8000000 in
@@ -227,22 +225,20 @@ theorem sse_indexbytebodyCase_correct (mem : Nat → UInt8) (base len : Nat) (c 
     (h16 : 16 ≤ len) (hb : base + len + 32 < 2 ^ 63)
     (hSI : s.r .SI = base) (hDI : s.r .DI = base) (hBX : s.r .BX = len) (hX0 : ∀ j, s.x .X0 j = c) (hX2 : ∀ j, s.x .X2 j = 0x20)
     (hmem : s.mem = mem) (hout : s.out = none) (hl : s.loads = []) (hf : 9 * (len + 1) + 14 + 2 ≤ f) :
-    (run Gen.Asm.sse_indexbytebodyCase f (block Gen.Asm.sse_indexbytebodyCase "sse") s).out = some (specIndex (fun b => (b ||| 0x20) == c) mem base len) ∧
-    ∀ ld ∈ (run Gen.Asm.sse_indexbytebodyCase f (block Gen.Asm.sse_indexbytebodyCase "sse") s).loads, base ≤ ld.1 ∧ ld.1 + ld.2 ≤ base + len := by
+    (run Gen.Asm.body_indexbytebodyCase f (block Gen.Asm.body_indexbytebodyCase "sse") s).out = some (specIndex (fun b => (b ||| 0x20) == c) mem base len) ∧
+    ∀ ld ∈ (run Gen.Asm.body_indexbytebodyCase f (block Gen.Asm.body_indexbytebodyCase "sse") s).loads, base ≤ ld.1 ∧ ld.1 + ld.2 ≤ base + len := by
   have hW : W64 = 2 ^ 64 := rfl
   obtain ⟨g, rfl⟩ : ∃ g, f = g + 2 := ⟨f - 2, by omega⟩
   have alea : (base + len + dispN (-16)) % W64 = base + len - 16 := by rw [dispNm16, hW]; omega
   have hinv := sse_indexbytebodyCase_inv mem base len c h16 hb (len + 1) 0
-    { r := fun q => if q = Reg.AX then base + len - 16 else s.r q, x := s.x, zf := s.zf, cf := s.cf, mem := s.mem,
-      loads := s.loads, out := s.out } g
+    { s with r := fun q => if q = Reg.AX then base + len - 16 else s.r q } g
     (by simp [hSI]) (by simp [hDI]) (by simp) hX0 hX2 hmem hout (by omega) (by omega) (by omega)
   have hcor := idxLoop_correct P16 ⟨rfl, rfl, by decide⟩ (fun b => (b ||| 0x20) == c) mem base len h16 (len + 1) 0 (by omega)
     (by show len ≤ (len + 1) * 16 + 0; omega) (fun i hi => by omega)
-  have e : run Gen.Asm.sse_indexbytebodyCase (g + 2) (block Gen.Asm.sse_indexbytebodyCase "sse") s =
-      run Gen.Asm.sse_indexbytebodyCase g (Lentry Gen.Asm.sse_indexbytebodyCase)
-        { r := fun q => if q = Reg.AX then base + len - 16 else s.r q, x := s.x, zf := s.zf, cf := s.cf, mem := s.mem,
-          loads := s.loads, out := s.out } := by
-    asm_step [Gen.Asm.sse_indexbytebodyCase, hSI, hBX, alea]
+  have e : run Gen.Asm.body_indexbytebodyCase (g + 2) (block Gen.Asm.body_indexbytebodyCase "sse") s =
+      run Gen.Asm.body_indexbytebodyCase g (Lentry Gen.Asm.body_indexbytebodyCase)
+        { s with r := fun q => if q = Reg.AX then base + len - 16 else s.r q } := by
+    asm_step [Gen.Asm.body_indexbytebodyCase, hSI, hBX, alea]
   rw [e, hinv.1, hinv.2, hcor.1]
   refine ⟨rfl, ?_⟩
   intro ld hld
@@ -253,12 +249,12 @@ set_option maxRecDepth 8000 in
 set_option maxHeartbeats 8000000 in
 theorem sse_indexByteBodyNonASCII_inv (mem : Nat → UInt8) (base len : Nat) (c : UInt8) (h16 : 16 ≤ len) (hb : base + len + 32 < 2 ^ 63) :
     ∀ (n di : Nat) (s : St) (f : Nat),
-      s.r .SI = base → s.r .DI = base + di → s.r .AX = base + len - 16 → (∀ _j : Nat, True) → (∀ j, s.x .X2 j = 0x20) →
+      s.r .SI = base → s.r .DI = base + di → s.r .AX = base + len - 16 → (∀ _j : Nat, True) → (∀ _j : Nat, True) →
       s.mem = mem → s.out = none →
       di < len → len ≤ n * 16 + di → 8 * n + 12 ≤ f →
-      (run Gen.Asm.sse_indexByteBodyNonASCII f (Lentry Gen.Asm.sse_indexByteBodyNonASCII) s).out =
+      (run Gen.Asm.body_indexByteBodyNonASCII f (Lentry Gen.Asm.body_indexByteBodyNonASCII) s).out =
           some (idxLoop P16 (fun b => decide (b ≥ 0x80)) mem base len n di).1 ∧
-      (run Gen.Asm.sse_indexByteBodyNonASCII f (Lentry Gen.Asm.sse_indexByteBodyNonASCII) s).loads =
+      (run Gen.Asm.body_indexByteBodyNonASCII f (Lentry Gen.Asm.body_indexByteBodyNonASCII) s).loads =
           s.loads ++ (idxLoop P16 (fun b => decide (b ≥ 0x80)) mem base len n di).2 := by
   intro n
   induction n with
@@ -280,13 +276,13 @@ theorem sse_indexByteBodyNonASCII_inv (mem : Nat → UInt8) (base len : Nat) (c 
         -- one full iteration, then the invariant again at di + 16
         have hadd : (base + di + 16 % W64) % W64 = base + (di + 16) := by rw [hW]; omega
         obtain ⟨g, rfl⟩ : ∃ g, f = g + 8 := ⟨f - 8, by omega⟩
-        have hstep : ∃ s' : St, run Gen.Asm.sse_indexByteBodyNonASCII (g + 8) (Lentry Gen.Asm.sse_indexByteBodyNonASCII) s =
-              run Gen.Asm.sse_indexByteBodyNonASCII g (Lentry Gen.Asm.sse_indexByteBodyNonASCII) s' ∧
+        have hstep : ∃ s' : St, run Gen.Asm.body_indexByteBodyNonASCII (g + 8) (Lentry Gen.Asm.body_indexByteBodyNonASCII) s =
+              run Gen.Asm.body_indexByteBodyNonASCII g (Lentry Gen.Asm.body_indexByteBodyNonASCII) s' ∧
             s'.r .SI = base ∧ s'.r .DI = base + (di + 16) ∧ s'.r .AX = base + len - 16 ∧ (∀ _j : Nat, True) ∧
-            (∀ j, s'.x .X2 j = 0x20) ∧ s'.mem = mem ∧ s'.out = none ∧ s'.loads = s.loads ++ [(base + di, 16)] := by
+            (∀ _j : Nat, True) ∧ s'.mem = mem ∧ s'.out = none ∧ s'.loads = s.loads ++ [(base + di, 16)] := by
           refine ⟨?_, ?_, ?_, ?_, ?_, ?_, ?_, ?_, ?_, ?_⟩
           case refine_2 =>
-            asm_step [Gen.Asm.sse_indexByteBodyNonASCII, hSI, hDI, hAX, hX2, hmem, hcf, a0, hfb, hadd]
+            asm_step [Gen.Asm.body_indexByteBodyNonASCII, hSI, hDI, hAX, hX2, hmem, hcf, a0, hfb, hadd]
             rfl
           all_goals simp [hSI, hAX, hX2, hout]
         obtain ⟨s', he, i1, i2, i3, i4, i5, i6, i7, i8⟩ := hstep
@@ -301,7 +297,7 @@ theorem sse_indexByteBodyNonASCII_inv (mem : Nat → UInt8) (base len : Nat) (c 
         have haddk : (di + k) % W64 = di + k := by rw [hW]; omega
         have h63 : di + k < 2 ^ 63 := by omega
         obtain ⟨g, rfl⟩ : ∃ g, f = g + 12 := ⟨f - 12, by omega⟩
-        constructor <;> asm_step [Gen.Asm.sse_indexByteBodyNonASCII, hSI, hDI, hAX, hX2, hmem, hout, hcf, a0, hfb, hsub, haddk, h63]
+        constructor <;> asm_step [Gen.Asm.body_indexByteBodyNonASCII, hSI, hDI, hAX, hX2, hmem, hout, hcf, a0, hfb, hsub, haddk, h63]
     · rw [if_neg hlt]
       have hcf : decide (base + di < base + len - 16) = false := decide_eq_false (by omega)
       have a0 : (base + len - 16 + 0 + dispN 0) % W64 = base + len - 16 := by rw [dispN0, hW]; omega
@@ -314,7 +310,7 @@ theorem sse_indexByteBodyNonASCII_inv (mem : Nat → UInt8) (base len : Nat) (c 
         rw [hblk] at hfb
         simp only []
         obtain ⟨g, rfl⟩ : ∃ g, f = g + 12 := ⟨f - 12, by omega⟩
-        constructor <;> asm_step [Gen.Asm.sse_indexByteBodyNonASCII, hSI, hDI, hAX, hX2, hmem, hout, hcf, a0, hfb]
+        constructor <;> asm_step [Gen.Asm.body_indexByteBodyNonASCII, hSI, hDI, hAX, hX2, hmem, hout, hcf, a0, hfb]
       | some k =>
         rw [hblk] at hfb
         obtain ⟨_, hk16, _, _⟩ := blk_some hblk
@@ -323,7 +319,7 @@ theorem sse_indexByteBodyNonASCII_inv (mem : Nat → UInt8) (base len : Nat) (c 
         have haddk : (len - 16 + k) % W64 = len - 16 + k := by rw [hW]; omega
         have h63 : len - 16 + k < 2 ^ 63 := by omega
         obtain ⟨g, rfl⟩ : ∃ g, f = g + 12 := ⟨f - 12, by omega⟩
-        constructor <;> asm_step [Gen.Asm.sse_indexByteBodyNonASCII, hSI, hDI, hAX, hX2, hmem, hout, hcf, a0, hfb, hsub, haddk, h63]
+        constructor <;> asm_step [Gen.Asm.body_indexByteBodyNonASCII, hSI, hDI, hAX, hX2, hmem, hout, hcf, a0, hfb, hsub, haddk, h63]
 
 set_option maxRecDepth 8000 in
 set_option maxHeartbeats 8000000 in
@@ -332,24 +328,22 @@ set_option maxHeartbeats 8000000 in
     argument -/
 theorem sse_indexByteBodyNonASCII_correct (mem : Nat → UInt8) (base len : Nat) (c : UInt8) (s : St) (f : Nat)
     (h16 : 16 ≤ len) (hb : base + len + 32 < 2 ^ 63)
-    (hSI : s.r .SI = base) (hDI : s.r .DI = base) (hBX : s.r .BX = len) (hX0 : ∀ _j : Nat, True) (hX2 : ∀ j, s.x .X2 j = 0x20)
+    (hSI : s.r .SI = base) (hDI : s.r .DI = base) (hBX : s.r .BX = len) (hX0 : ∀ _j : Nat, True) (hX2 : ∀ _j : Nat, True)
     (hmem : s.mem = mem) (hout : s.out = none) (hl : s.loads = []) (hf : 8 * (len + 1) + 12 + 2 ≤ f) :
-    (run Gen.Asm.sse_indexByteBodyNonASCII f (block Gen.Asm.sse_indexByteBodyNonASCII "sse") s).out = some (specIndex (fun b => decide (b ≥ 0x80)) mem base len) ∧
-    ∀ ld ∈ (run Gen.Asm.sse_indexByteBodyNonASCII f (block Gen.Asm.sse_indexByteBodyNonASCII "sse") s).loads, base ≤ ld.1 ∧ ld.1 + ld.2 ≤ base + len := by
+    (run Gen.Asm.body_indexByteBodyNonASCII f (block Gen.Asm.body_indexByteBodyNonASCII "sse") s).out = some (specIndex (fun b => decide (b ≥ 0x80)) mem base len) ∧
+    ∀ ld ∈ (run Gen.Asm.body_indexByteBodyNonASCII f (block Gen.Asm.body_indexByteBodyNonASCII "sse") s).loads, base ≤ ld.1 ∧ ld.1 + ld.2 ≤ base + len := by
   have hW : W64 = 2 ^ 64 := rfl
   obtain ⟨g, rfl⟩ : ∃ g, f = g + 2 := ⟨f - 2, by omega⟩
   have alea : (base + len + dispN (-16)) % W64 = base + len - 16 := by rw [dispNm16, hW]; omega
   have hinv := sse_indexByteBodyNonASCII_inv mem base len c h16 hb (len + 1) 0
-    { r := fun q => if q = Reg.AX then base + len - 16 else s.r q, x := s.x, zf := s.zf, cf := s.cf, mem := s.mem,
-      loads := s.loads, out := s.out } g
+    { s with r := fun q => if q = Reg.AX then base + len - 16 else s.r q } g
     (by simp [hSI]) (by simp [hDI]) (by simp) hX0 hX2 hmem hout (by omega) (by omega) (by omega)
   have hcor := idxLoop_correct P16 ⟨rfl, rfl, by decide⟩ (fun b => decide (b ≥ 0x80)) mem base len h16 (len + 1) 0 (by omega)
     (by show len ≤ (len + 1) * 16 + 0; omega) (fun i hi => by omega)
-  have e : run Gen.Asm.sse_indexByteBodyNonASCII (g + 2) (block Gen.Asm.sse_indexByteBodyNonASCII "sse") s =
-      run Gen.Asm.sse_indexByteBodyNonASCII g (Lentry Gen.Asm.sse_indexByteBodyNonASCII)
-        { r := fun q => if q = Reg.AX then base + len - 16 else s.r q, x := s.x, zf := s.zf, cf := s.cf, mem := s.mem,
-          loads := s.loads, out := s.out } := by
-    asm_step [Gen.Asm.sse_indexByteBodyNonASCII, hSI, hBX, alea]
+  have e : run Gen.Asm.body_indexByteBodyNonASCII (g + 2) (block Gen.Asm.body_indexByteBodyNonASCII "sse") s =
+      run Gen.Asm.body_indexByteBodyNonASCII g (Lentry Gen.Asm.body_indexByteBodyNonASCII)
+        { s with r := fun q => if q = Reg.AX then base + len - 16 else s.r q } := by
+    asm_step [Gen.Asm.body_indexByteBodyNonASCII, hSI, hBX, alea]
   rw [e, hinv.1, hinv.2, hcor.1]
   refine ⟨rfl, ?_⟩
   intro ld hld
